@@ -154,6 +154,8 @@ def check(parts):
     raise KeyError(op)
 
 def main():
+    if hasattr(sys, 'set_int_max_str_digits'):
+        sys.set_int_max_str_digits(0)
     lines = 0
     bad = 0
     unknown = {}
